@@ -2,7 +2,7 @@
 import ast
 from ..engine.model import AnalysisError, dotted
 from ..engine.context import unparse, enclosing_trys, enclosing_loops, enclosing_stmt, stores_in
-from ..engine.cfg import handler_is_catch_all, facts_of, walk_no_nested, calls_in
+from ..engine.cfg import handler_is_catch_all, facts_of, walk_no_nested, calls_in, no_exc
 from ..engine.guards import reached_under, isinstance_atom, flag_test_atom, eval_test
 
 EXPLANATION = (
@@ -13,7 +13,7 @@ EXPLANATION = (
     "conditions (finite truth table over the exception-class lattice); unserialisable exceptions are replaced; every "
     "handshake call site is contained; the peer-controlled annotation walk terminates (unsigned lengths, positive advance, ordering "
     "test as loop condition)."
-    'Also decided: definite assignment of every local in the library (two named exceptions); housekeeping deletes only after a fresh look-up; accept() errors end the multiplex loop only for a destroyed server socket. '
+    'Also decided: definite assignment of every local in the modules of the request path (two named exceptions); housekeeping deletes only after a fresh look-up; accept() errors end the multiplex loop only for a destroyed server socket. '
     "Not decided: correctness of the replies to well-behaved clients, accounting values, "
     "liveness against a peer that stalls without disconnecting."
 )
@@ -47,7 +47,7 @@ def run(ctx, R, tier):
                      "CommunicationError (truth table over the exception lattice)", floor=3)
     R.rule("C05-R4", "_sendExceptionResponse: serialisation of the exception is under a catch-all that substitutes a PyroError built from text", floor=2)
     R.rule("C05-R5", "every call site of Daemon._handshake is contained (lexically under a catch-all try)", floor=3)
-    R.rule("C05-R8", "definite assignment: no function of the library reads a local that some path leaves unassigned (an unexpected NameError on an error path "
+    R.rule("C05-R8", "definite assignment: no function of the request path (server, transports, protocol, socket layer, serializers, core, call context, client) reads a local that some path leaves unassigned (an unexpected NameError on an error path "
                      "replaces the real error and, outside a catch-all, ends a loop)", floor=10)
     R.rule("C05-R6", "the peer-controlled annotation walk makes progress: chunk lengths are decoded unsigned and the cursor advances by a positive "
                      "constant plus the declared length (shared with C06-R3/R5)", floor=3)
@@ -343,7 +343,10 @@ def run(ctx, R, tier):
     by_mod = {}
     for g in p.functions.values():
         mn = g.module.name
-        if mn.startswith("Pyro5.compatibility") or mn == "Pyro5.utils.echoserver" or isinstance(g.node, ast.Lambda):
+        # scope: the modules a request passes through on its way from the socket to the user's method and back (and the client half, whose obligations C07
+        # shares); tools, the name server application, configuration and the compatibility layer are not on that path, and a path-insensitive
+        # definite-assignment rule must not be armed where the property does not need it
+        if mn not in R8_MODULES or isinstance(g.node, ast.Lambda):
             continue
         hits = [(nm, x) for nm, node, x in possibly_undefined(ctx.cfg(g), g.node, g.params) if not excused(g, nm, x)]
         by_mod.setdefault(mn, []).append((g, hits))
@@ -351,6 +354,10 @@ def run(ctx, R, tier):
         bad = [(g, h) for g, hs in by_mod[mn] for h in hs]
         R.check(not bad, "C05-R8", "module|%s" % mn, "every local read in the %d functions of this module is assigned on all paths leading to the read" % len(by_mod[mn]), mn.replace(".", "/") + ".py",
                 ("`%s` can be read at %s before it is assigned on some path through %s (NameError at run time)" % (bad[0][1][0], bad[0][0].loc(bad[0][1][1]), bad[0][0].qualname)) if bad else "")
+
+
+R8_MODULES = frozenset("Pyro5." + m for m in ("server", "svr_threads", "svr_multiplex", "svr_existingconn", "protocol", "socketutil", "serializers", "core",
+                                                "callcontext", "client"))
 
 
 def worker_loop_rules(ctx, R, rid):
@@ -378,6 +385,38 @@ def worker_loop_rules(ctx, R, rid):
     ok = bool(clear) and all(cfg.all_paths_pass(job_nodes, lambda n: n in clear, edge_ok=can_raise, targets=[x]) for x in ndn)
     R.check(ok, rid, "Worker.run|slot-cleared", "`self.job = None` lies on every path from the job call to notify_done", f.loc(),
             "notify_done can be reached from the job call without clearing the job slot")
+    # the signal protocol between pool and worker: each round waits for the event and clears it BEFORE the job slot is read - a clear() that comes later (after
+    # notify_done, where the pool may already have re-signalled the worker with its next job or with the None that retires it) wipes that signal and the thread
+    # waits for ever, alive but in neither set
+    from ..engine.cfg import stmt_exprs as _stmt_exprs
+    waits = [n for c in walk_no_nested(f.node) if isinstance(c, ast.Call) and unparse(c.func) == "self.job_available.wait" for n in ctx.node_of(f, c)]
+    clears = [n for c in walk_no_nested(f.node) if isinstance(c, ast.Call) and unparse(c.func) == "self.job_available.clear" for n in ctx.node_of(f, c)]
+    reads = [n for n in cfg.nodes if n.kind in ("test", "stmt") and any(unparse(x) == "self.job" and isinstance(x.ctx, ast.Load) for e_ in _stmt_exprs(n) for x in ast.walk(e_) if isinstance(x, ast.Attribute))]
+    ok_ev = bool(waits) and bool(clears) and bool(reads) and all(any(cfg.dominates(w, c_) for w in waits) for c_ in clears) and \
+        all(any(cfg.dominates(c_, r) for c_ in clears) for r in reads) and \
+        all(cfg.all_paths_pass([r], lambda n: n in waits, edge_ok=no_exc, targets=[r]) for r in reads[:1])
+    # ... and nothing clears the event between handing the worker back (notify_done) and the next wait
+    late = [c_ for c_ in clears if any(cfg.path_exists([x], lambda n, c_=c_: n is c_, edge_ok=no_exc, node_blocked=lambda n: n in waits) for x in ndn)]
+    R.check(ok_ev and not late, rid, "Worker.run|event-waited-and-cleared", "each round of the worker loop waits for the event and clears it before it reads the job slot, and not again before the next wait", f.loc(),
+            "the worker reads its job slot without a fresh wait()/clear() of the event, or clears the event after notify_done: a signal the pool sent in between (next job, or the "
+            "None that retires a surplus worker) is wiped and the thread waits for ever while the pool no longer lists it")
+    # the worker goes back to the pool only on paths on which its thread goes on to wait for the next job: not from a `finally` (which also runs while
+    # SystemExit / KeyboardInterrupt from the job is ending the thread) and not from a handler of more than Exception - an idle worker whose thread is dead
+    # accepts the next connection and never serves or refuses it
+    bad = None
+    for c in nd_calls:
+        n, child = getattr(c, "_parent", None), c
+        while n is not None and n is not f.node:
+            if isinstance(n, ast.Try) and any(child is x for x in n.finalbody):
+                bad = "in a `finally`"
+            if isinstance(n, ast.ExceptHandler):
+                cls = [None] if n.type is None else [es.class_of_expr(t, f) for t in (n.type.elts if isinstance(n.type, ast.Tuple) else [n.type])]
+                if any(k is None or k in ("builtins.BaseException", "builtins.SystemExit", "builtins.KeyboardInterrupt", "builtins.GeneratorExit") for k in cls):
+                    bad = "in a handler that also catches thread-ending exceptions"
+            child, n = n, getattr(n, "_parent", None)
+    R.check(bad is None, rid, "Worker.run|returned-only-while-alive", "notify_done is reached only by normal control flow (not from a finally / BaseException handler)", f.loc(nd_calls[0]),
+            "pool.notify_done(self) sits %s: when the job ends in SystemExit the dying thread still puts its worker back into the idle set, and the next connection handed "
+            "to it is neither served nor refused" % bad)
 
 
 
